@@ -7,7 +7,7 @@ use serde_json::{json, Value};
 pub const DEF: PropDef = PropDef {
     id: "C05",
     level: "exploration",
-    rule: "complete enumeration of programs = fixed prelude (global x, helper function yod) + function `zed takes u` whose body is every sequence of 1..2 (thorough 1..3) statements of a 22-statement body alphabet (locals, parameter mutation, global update, returns at every depth, recursion, nested call, pronoun read/write, array parameter mutation) + every sequence of 1..2 (with one-statement bodies: 1..3) statements of a 29-statement caller alphabet (calls in every position, wrong arity, calling a variable / unknown name, leaked locals, block locals, shadowing, side-effecting arguments, arrays by value, pronouns after blocks and calls); outcome and output compared with the reference interpreter under both scoping disciplines; non-trivial = judged (not skipped as unspecified); distinct = distinct program text",
+    rule: "complete enumeration of programs = fixed prelude (global x, helper function yod) + function `zed takes u` whose body is every sequence of 1..2 (thorough 1..3) statements of a 22-statement body alphabet (locals, parameter mutation, global update, returns at every depth, recursion, nested call, pronoun read/write, array parameter mutation) + every sequence of 1..2 (with one-statement bodies: 1..3) statements of a 29-statement caller alphabet (calls in every position, wrong arity, calling a variable / unknown name, leaked locals, block locals, shadowing, side-effecting arguments, arrays by value, pronouns after blocks and calls); plus the pronoun-after-naming family: 38 statements that name several variables (subscript reads, operators, short-circuit, lists, every statement kind with a destination, calls, conditions of if / while / until) x 7 pronoun uses, at top level and inside a function; outcome and output compared with the reference interpreter under both scoping disciplines; non-trivial = judged (not skipped as unspecified); distinct = distinct program text",
     assumptions: &[
         "programs on which lexical and dynamic scoping differ (callee touching a caller's non-global local) are skipped as U-scope; pronoun uses whose referent depends on unspecified evaluation order are skipped as U-pronoun",
         "reference interpreter written from the property text",
@@ -83,6 +83,67 @@ fn program(body: &[&'static str], main: &[&'static str]) -> String {
     format!("{}zed takes u\n{}\n{}", PRELUDE, body.concat(), main.concat())
 }
 
+/// statements that name several variables, each followed by every pronoun use: the referent is the
+/// variable named last during evaluation (the reference decides which cells are determined)
+pub const NAMING: &[&str] = &[
+    "say w at j\n",
+    "say w at k\n",
+    "say v at k at j\n",
+    "say w at j plus x\n",
+    "say x plus y\n",
+    "say y minus x\n",
+    "say x plus y, j\n",
+    "say f and y\n",
+    "say x and y\n",
+    "say x or y\n",
+    "say f or y\n",
+    "say not x\n",
+    "say w at j is y\n",
+    "say x is y\n",
+    "put x plus y into z\n",
+    "put w at j into z\n",
+    "put w at j into v at k\n",
+    "build x up\n",
+    "listen to y\n",
+    "turn up x\n",
+    "roll w\n",
+    "roll w into y\n",
+    "rock w with x\n",
+    "cut s into p\n",
+    "cut s into p with d\n",
+    "join v at 1 into p\n",
+    "cast n into p with j\n",
+    "say yod taking x\n",
+    "say x plus yod taking y\n",
+    "say yod taking x plus y\n",
+    "if x is y\n@\n",
+    "if x is y\nsay 1\nelse\n@\n",
+    "if y is x\nsay 1\n\n",
+    "while j is less than k\nbuild j up\n@\n",
+    "until k is j\nbuild j up\n@\n",
+    "until k is j\nbuild j up\n\n",
+    "say w at j\nsay 1\n",
+    "say x\nsay \"lit\"\n",
+];
+pub const PRONOUN_USES: &[&str] = &["say it\n", "build it up\n", "put 9 into it\n", "say it plus 1\nsay it\n", "rock it with 3\n", "let it at 0 be 7\n", "give back it\n"];
+const NAMING_PRELUDE: &str = "put 1 into x\nput 2 into y\nput 0 into j\nput 1 into k\nput false into f\nput \"p,q\" into s\nput \",\" into d\nput \"11\" into n\nrock w with 4, 5\nrock v with 7\nrock v with w\nyod takes k\ngive back k plus 1\n\n";
+const NAMING_OBSERVE: &str = "say x\nsay y\nsay j\nsay k\nsay w\nsay w at 0\nsay w at 1\nsay v at 1 at 0\nsay p\nsay z\n";
+
+fn naming_programs() -> Vec<String> {
+    let mut out = Vec::new();
+    for n in NAMING {
+        for u in PRONOUN_USES {
+            let body = if n.contains('@') { n.replace('@', u.trim_end()) } else { format!("{}{}", n, u) };
+            // at top level and inside a function
+            if !u.starts_with("give back") {
+                out.push(format!("{}{}{}", NAMING_PRELUDE, body, NAMING_OBSERVE));
+            }
+            out.push(format!("{}fun takes q\n{}give back 0\n\nsay fun taking 1\n{}", NAMING_PRELUDE, body, NAMING_OBSERVE));
+        }
+    }
+    out
+}
+
 fn build(tier: Tier) -> Box<dyn Check> {
     let b: Space<&'static str> = Space::of(BODY.to_vec());
     let m: Space<&'static str> = Space::of(MAIN.to_vec());
@@ -92,9 +153,9 @@ fn build(tier: Tier) -> Box<dyn Check> {
     let f2 = b.seq_range(1, 1).product(&m.seq_range(3, 3), |b, m| program(&b, &m));
     if tier == Tier::Thorough {
         let f3 = b.seq_range(2, 2).product(&m.seq_range(3, 3), |b, m| program(&b, &m));
-        return Box::new(C05 { fams: vec![("body x caller".into(), f1), ("one-statement body x 3 caller statements".into(), f2), ("thresholds".into(), Space::of(super::scale::programs())), ("two-statement body x 3 caller statements".into(), f3)] });
+        return Box::new(C05 { fams: vec![("body x caller".into(), f1), ("one-statement body x 3 caller statements".into(), f2), ("thresholds".into(), Space::of(super::scale::programs())), ("pronoun after naming".into(), Space::of(naming_programs())), ("two-statement body x 3 caller statements".into(), f3)] });
     }
-    Box::new(C05 { fams: vec![("body x caller".into(), f1), ("one-statement body x 3 caller statements".into(), f2), ("thresholds".into(), Space::of(super::scale::programs()))] })
+    Box::new(C05 { fams: vec![("body x caller".into(), f1), ("one-statement body x 3 caller statements".into(), f2), ("thresholds".into(), Space::of(super::scale::programs())), ("pronoun after naming".into(), Space::of(naming_programs()))] })
 }
 
 impl Check for C05 {
@@ -114,6 +175,6 @@ impl Check for C05 {
         }
     }
     fn static_coverage(&self) -> Value {
-        json!({"body_alphabet": BODY, "caller_alphabet": MAIN, "prelude": PRELUDE})
+        json!({"naming_statements": NAMING, "pronoun_uses": PRONOUN_USES, "body_alphabet": BODY, "caller_alphabet": MAIN, "prelude": PRELUDE})
     }
 }
